@@ -422,6 +422,10 @@ class FileStorage(
         checked = 0
 
         while checked < max_checked:
+            if pos <= 4:
+                # Walked back to the file header through empty (or undone)
+                # transactions only: nothing to check the index against.
+                return 0  # rebuild
             self._file.seek(pos - 8)
             rstl = self._file.read(8)
             tl = u64(rstl)
